@@ -428,6 +428,10 @@ func main() {
 	run.FloorCounter("completed_chunked_upload", 10*scale)
 	run.FloorCounter("range_checked", 200*scale)
 	run.FloorCounter("wire_framing_checked", 1000*scale)
+	for i, n := 0, run.N(84, 840); i < n; i++ {
+		midStreamReadFailure(run, i)
+	}
+	run.FloorCounter("mid_stream_read_failures", 300)
 	run.FloorCounter("backend_calls_checked", 20000*scale)
 	run.FloorCounter("readers_checked", 2000*scale)
 	run.FloorCounter("writers_checked", 2000*scale)
